@@ -20,8 +20,8 @@ Conventions
   FIFO while present, the rest are `(version, snapshot)`.
 * Python-level facts that are modelled as disabled actions and then proved unreachable:
   `BoundedSemaphore.release` above the initial value (ValueError) — `cRel` needs `sem < max`.
-  `QueueSnapshotStore.append`'s `_max_version` guard is not modelled; `Inv.storeSorted` shows the versions
-  appended are strictly increasing, so the guard never fires.
+  `QueueSnapshotStore.append`'s `_max_version` guard is not modelled; `Inv.storeSorted` / `Inv.storeSound` (Proofs/PMInv)
+  show the versions appended are strictly increasing, so the guard never fires.
 -/
 namespace TDV.PM
 
